@@ -322,6 +322,10 @@ func runC20(c *core.Ctx) {
 				return
 			}
 			ge, ok := err.(*gqlerror.Error)
+			if ok && ge == nil {
+				report(what, "a non-nil error that holds a nil *gqlerror.Error (no message)", map[string]interface{}{"input": in})
+				return
+			}
 			if !ok {
 				if strings.TrimSpace(err.Error()) == "" {
 					report(what, "empty message", map[string]interface{}{"input": in})
@@ -365,6 +369,14 @@ func runC20(c *core.Ctx) {
 		s := gen.NewSchema(gen.New(c.Rng.U64()))
 		gen.Pick(c.Rng, gen.SchemaFaults).Apply(c.Rng, s)
 		loads[i] = lc{partition(c.Rng, s.Chunks(), 1+c.Rng.Intn(3))}
+		// one load in five: one, two or all of its sources do not even parse
+		if i%5 == 0 {
+			bad := 1 + c.Rng.Intn(len(loads[i].srcs))
+			for j := 0; j < bad; j++ {
+				k := (j + i) % len(loads[i].srcs)
+				loads[i].srcs[k] += gen.Pick(c.Rng, []string{"\n}", "\ntype {", "\n\"unterminated", "\nextend", "\n$"})
+			}
+		}
 	}
 	c.Pool.ParFor(nSch, func(w, i int) {
 		files := map[string]string{"prelude.graphql": "\x00builtin"}
@@ -379,8 +391,8 @@ func runC20(c *core.Ctx) {
 			return
 		}
 		ge, ok := err.(*gqlerror.Error)
-		if !ok {
-			report("LoadSchema", "error is not a *gqlerror.Error", map[string]interface{}{"sources": loads[i].srcs})
+		if !ok || ge == nil {
+			report("LoadSchema", "error is not a (non-nil) *gqlerror.Error", map[string]interface{}{"sources": loads[i].srcs})
 			return
 		}
 		note("LoadSchema", ge)
@@ -452,8 +464,8 @@ func runC20(c *core.Ctx) {
 			continue
 		}
 		ge, ok := cerr.(*gqlerror.Error)
-		if !ok {
-			report("VariableValues", "error is not a *gqlerror.Error", map[string]interface{}{"query": q})
+		if !ok || ge == nil {
+			report("VariableValues", "error is not a (non-nil) *gqlerror.Error: it has no message", map[string]interface{}{"query": q, "variables": EncodeGo(vars)})
 			continue
 		}
 		note("VariableValues", ge)
